@@ -127,6 +127,13 @@ Theorem agree_strict_weak : forall v out, agree_C15 true v out = true -> agree_C
 Proof. exact agree_strict_weak. Qed.
 Print Assumptions agree_strict_weak.
 
+(** reach_sound: the states the model lists for the corrupt_spelling stream ([reach], k chained
+    calls from one word) are ends of chains of exactly k calls, so [chain_inv] applies to them *)
+Theorem reach_sound : forall c ci k w ex l s',
+  reach c ci k [(w, ex)] = Some l -> In s' l -> chain c k (w, ex) s'.
+Proof. exact reach_sound_l. Qed.
+Print Assumptions reach_sound.
+
 (** * Non-vacuity *)
 Definition c_ex : cfg :=
   {| k_ins := true; k_del := true; k_rep := true; k_swap := true; full_del := false;
@@ -140,6 +147,24 @@ Example outcomes_witness :
   outcomes c_ex [true; true] [true] [[97]; [98]]%N [1] =
   Some [ ([[120]; [97]; [98]]%N, [2; 0]); ([[97]; [98]]%N, [1]);
          ([[98]]%N, [0]); ([[113]; [98]]%N, [1; 0]); ([[97]; [98]]%N, [1]) ].
+Proof. vm_compute. reflexivity. Qed.
+
+(** two more complete outcome sets. The harness' self check runs the real [edit_word] on these
+    three inputs over 800 seeds and requires the set of observed results to be EXACTLY the set
+    listed here (both inclusions), so an implementation that silently loses an outcome (never
+    inserts at the end, never deletes the last character, ...) is noticed although the
+    per-case correspondence is only a membership test. *)
+Example outcomes_witness_2 :
+  outcomes c_ex [true; true] [true] [[97]; [98]]%N [] =
+  Some [ ([[120]; [97]; [98]]%N, [0]); ([[97]; [98]]%N, []); ([[97]; [98]; [121]; [122]]%N, [2; 3]);
+         ([[98]]%N, []); ([[97]]%N, []); ([[113]; [98]]%N, [0]); ([[97]]%N, []);
+         ([[98]; [97]]%N, [0; 1]) ].
+Proof. vm_compute. reflexivity. Qed.
+
+Definition c_fd : cfg :=
+  {| k_ins := false; k_del := true; k_rep := false; k_swap := true; full_del := true;
+     itab := []; rtab := [] |}.
+Example outcomes_witness_3 : outcomes c_fd [true] [] [[97]]%N [] = Some [([], []); ([[97]]%N, [])].
 Proof. vm_compute. reflexivity. Qed.
 
 (** the same call on the pinned code can fault *)
